@@ -179,6 +179,7 @@ static hc::Outcome run_one(hc::RunSpec& rs) {
     std::string wkey = "model=" + std::to_string(w.model) + " mp=" + std::to_string(w.mp) + " nosym=" + std::to_string(w.nosym) + " beta=" + std::to_string((int)w.beta) + " wf=" + std::to_string(w.wf) +
                        " split=" + std::to_string(w.split) + " clear=" + std::to_string(w.clear) + " quads=" + c.s("quads") + " freqs=" + c.s("freqs");
 
+    hc::announce(rs);
     hc::Outcome oc;
     // ---- reference: 1 rank, 1 thread, default schedule
     if (!g_refcache.count(wkey)) {
